@@ -228,6 +228,9 @@ func Props() []*harness.Prop {
 		{ID: "C05", Gen: c05Gen, Exec: c05Exec},
 		{ID: "C06", Gen: c06Gen, Exec: c06Exec},
 		{ID: "C07", Gen: c07Gen, Exec: c07Exec},
+		{ID: "C08", Gen: c08Gen, Exec: c08Exec},
+		{ID: "C09", Gen: c09Gen, Exec: c09Exec},
+		{ID: "C10", Gen: c10Gen, Exec: c10Exec},
 		{ID: "C30", Gen: c30Gen, Exec: c30Exec},
 		{ID: "C32", Gen: c32Gen, Exec: c32Exec},
 	}
